@@ -63,6 +63,7 @@ impl Ctx {
         self.bump("fired_deferred_wakes", s.deferred_wakes);
         self.bump("fired_injected_errors", s.faults_fired);
         self.bump("probe_writes_after_close", s.writes_after_close);
+        self.bump("abandoned_pending_ops", u64::from(d.has_abandoned_op()));
         self.mix(d.digest());
     }
 }
